@@ -1,6 +1,7 @@
 // C22 - CR committee state after a rollback equals the state built directly.
 // The engine is verifharness/statekit/rbk (shared with C21); this package
-// selects the CR side and adds the proposal kinds.
+// selects the CR side, the proposal kinds and period lengths that let proposals
+// end at a committee change (statekit.CRFocus*).
 package c22
 
 import (
@@ -10,70 +11,25 @@ import (
 	"verifharness/lib/vk"
 	"verifharness/statekit"
 	"verifharness/statekit/rbk"
-
-	crstate "github.com/elastos/Elastos.ELA/cr/state"
 )
-
-func minInt(a, b int) int {
-	if a < b {
-		return a
-	}
-	return b
-}
 
 func TestMain(m *testing.M) { vk.Main(m, "C22") }
 
 func TestRollbackEqualsDirect(t *testing.T) {
 	cfg := rbk.Config{Prop: "C22", Side: rbk.CR, Eras: rbk.ErasFromEnv([]int{1, 1, 2, 2}),
-		Kinds: func(g *statekit.Gen, era statekit.Era) {
-			// proposals, reviews, proposal votes, tracking, withdrawals (kinds of the C29 builder)
-			for k, w := range statekit.C29Kinds() {
-				g.Kinds[k] = (w + 1) / 2
+		Profile: func(t *rapid.T, p *statekit.Profile, era statekit.Era) { statekit.CRFocusProfile(t, p) },
+		// two thirds of the histories run past the second committee change
+		MaxHeight: func(t *rapid.T, p *statekit.Profile, era statekit.Era) uint32 {
+			change := p.CRCommitteeStart + p.DutyPeriod
+			if rapid.IntRange(0, 2).Draw(t, "short") == 0 {
+				return p.CRCommitteeStart + uint32(rapid.IntRange(2, int(p.DutyPeriod)).Draw(t, "maxheight"))
 			}
-			// the DPoS side only has to keep the chain staffed here
-			for _, k := range []string{"illegalproposal", "illegalvote", "illegalblock", "sidechainillegal", "inactivearbiters", "cancel", "topup", "returndeposit", "update"} {
-				g.Kinds[k] = 1
+			extra := 10
+			if vk.Thorough() {
+				extra = 10 + int(p.DutyPeriod)
 			}
-			// steer towards whole proposal life cycles (the weights of the C29
-			// builder's own check): members claim nodes, proposals get reviewed
-			// within the short review period, agreed ones are tracked and paid
-			g.Boost = func(kind string) int {
-				c := g.K.Committee
-				if !c.IsInElectionPeriod() {
-					return 1
-				}
-				registered, agreed, payable := 0, 0, 0
-				for _, p := range g.K.Proposals() {
-					switch p.Status {
-					case crstate.Registered:
-						registered++
-					case crstate.VoterAgreed:
-						agreed++
-					}
-					if c.AvailableWithdrawalAmount(p.Proposal.Hash) > 0 {
-						payable++
-					}
-				}
-				switch kind {
-				case "claimnode":
-					for _, m := range c.GetCurrentMembers() {
-						if len(m.DPOSPublicKey) == 0 && (m.MemberState == crstate.MemberElected || m.MemberState == crstate.MemberInactive) {
-							return 4
-						}
-					}
-				case "proposal":
-					if registered+agreed < 3 {
-						return 4
-					}
-				case "review":
-					return 1 + 8*minInt(registered, 3)
-				case "tracking":
-					return 1 + 3*minInt(agreed, 2)
-				case "withdraw":
-					return 1 + 3*minInt(payable+agreed, 3)
-				}
-				return 1
-			}
-		}}
+			return change + uint32(rapid.IntRange(1, extra).Draw(t, "past-second-change"))
+		},
+		Kinds: func(g *statekit.Gen, era statekit.Era) { statekit.CRFocusKinds(g) }}
 	rapid.Check(t, func(t *rapid.T) { rbk.Run(t, cfg) })
 }
